@@ -136,6 +136,7 @@ def generate(unit_dir, mustfail=False, mutate=None, variant=None, template='unit
             raw = rf.text[a:b]
             drop = tuple(o['dropderive'].split(',')) if o.get('dropderive') else ()
             txt = transform.strip_attrs_and_vis(raw, drop_derives=drop)
+            txt = publicize(txt, kind)
             if o.get('derive'):
                 txt = '#[derive(%s)]\n' % o['derive'].replace(',', ', ') + re.sub(r'#\[derive\([^)]*\)\]\s*', '', txt)
             if o.get('rename'):
@@ -239,6 +240,45 @@ def generate(unit_dir, mustfail=False, mutate=None, variant=None, template='unit
         raise ExtractError('mutant target %s not extracted by this unit' % mutate[0])
     g.text = '\n'.join(out)
     return g
+
+
+def publicize(txt, kind):
+    """Items are emitted `pub` with `pub` named fields (visibility carries no meaning inside the
+    single generated module; it only has to be uniform with the hand-written stubs)."""
+    m = mask(txt)
+    mm = re.search(r'\b%s\b' % kind, m)
+    if not mm:
+        return txt
+    edits = [(mm.start(), mm.start(), 'pub ')]
+    if kind == 'struct':
+        o = m.find('{', mm.end())
+        semi = m.find(';', mm.end())
+        if o >= 0 and (semi < 0 or o < semi):
+            from rustsrc import match_bracket
+            c = match_bracket(m, o)
+            depth = 0
+            expect_field = True
+            i = o + 1
+            while i < c:
+                ch = m[i]
+                if ch in '([{<':
+                    if ch == '<':
+                        depth += 1
+                    else:
+                        i = match_bracket(m, i)
+                elif ch == '>' and m[i - 1] != '-':
+                    depth -= 1
+                elif ch == ',' and depth == 0:
+                    expect_field = True
+                elif expect_field and (ch.isalpha() or ch == '_'):
+                    edits.append((i, i, 'pub '))
+                    expect_field = False
+                elif expect_field and ch == '#':
+                    # attribute on a field: skip it
+                    j = m.find('[', i)
+                    i = match_bracket(m, j)
+                i += 1
+    return transform.apply_edits(txt, edits)
 
 
 def expand_includes(lines, depth=0):
